@@ -15,20 +15,22 @@ from latcfg import frac
 KDEN, ODEN = 16, 2 ** 14
 
 
-def evaluate(tf, tfl, sizes, interp, clip, K, X, as_list=False, extra_batch=False):
+def evaluate(tf, tfl, sizes, interp, clip, K, X, as_list=False, extra_batch=False, dtype="float32"):
   """K: (V, units); X: (batch, rank). Returns (batch, units)."""
   units = K.shape[1]
-  layer = tfl.layers.Lattice(lattice_sizes=list(sizes), units=units, interpolation=interp, clip_inputs=clip)
+  layer = tfl.layers.Lattice(lattice_sizes=list(sizes), units=units, interpolation=interp, clip_inputs=clip,
+                             **({} if dtype == "float32" else {"dtype": dtype}))
+  tft = tf.float32 if dtype == "float32" else tf.float64
   rank = len(sizes)
   layer.build((None, rank) if units == 1 else (None, units, rank))
-  layer.kernel.assign(K.astype(np.float32))
+  layer.kernel.assign(K.astype(np.float32 if dtype == "float32" else np.float64))
   Xi = X if units == 1 else np.repeat(X[:, None, :], units, axis=1)
   if extra_batch:
     Xi = Xi[:, None]
   if as_list:
-    inp = [tf.constant(Xi[..., d:d + 1], dtype=tf.float32) for d in range(rank)]
+    inp = [tf.constant(Xi[..., d:d + 1], dtype=tft) for d in range(rank)]
   else:
-    inp = tf.constant(Xi, dtype=tf.float32)
+    inp = tf.constant(Xi, dtype=tft)
   out = layer(inp).numpy()
   return out.reshape(len(X), units)
 
@@ -124,8 +126,9 @@ def run(ctx):
       if len(Xe) == 0:
         continue
       try:
-        out = evaluate(tf, tfl, sizes, interp, clip, K, Xe, as_list=(j % 3 == 0))
-        events += events_for(sizes, interp, clip, K, Xe, out, xden, ctx, "random")
+        f64 = j % 4 == 1          # every fourth layer computes in float64
+        out = evaluate(tf, tfl, sizes, interp, clip, K, Xe, as_list=(j % 3 == 0), dtype="float64" if f64 else "float32")
+        events += events_for(sizes, interp, clip, K, Xe, out, xden, ctx, "random64" if f64 else "random")
         ctx.nontrivial.add(str(sizes))
       except Exception as ex:  # pylint: disable=broad-except
         events.append({"ev": "Raised", "site": {"layer": "lattice", "interp": interp, "path": "random"},
@@ -143,7 +146,8 @@ def replay(ctx, path):
     call = ev["call"]
     K = np.array(call["k"], dtype=np.float32).reshape(-1, 1)
     X = np.array([call["x"]], dtype=np.float32)
-    out = evaluate(tf, tfl, call["sizes"], call["interp"], call["clip"], K, X)
+    out = evaluate(tf, tfl, call["sizes"], call["interp"], call["clip"], K, X,
+                   dtype="float64" if call.get("path") == "random64" else "float32")
     log("replay %s -> %s" % (call, out.tolist()))
     events += events_for(call["sizes"], call["interp"], call["clip"], K, X, out, ev["xden"], ctx, "replay")
   ctx.validate("TraceLatticeEval", events, shards=1)
